@@ -454,10 +454,9 @@ namespace OpenMEEG {
         for (auto& domain : domains())
             if (almost_equal(domain.conductivity(),0.0))
                 for (auto& boundary : domain.boundaries())
-                    if (!boundary.inside())
-                        for (auto& oriented_mesh : boundary.interface().oriented_meshes())
-                            if (oriented_mesh.mesh().current_barrier() && !oriented_mesh.mesh().isolated())
-                                oriented_mesh.mesh().outermost() = true;
+                    for (auto& oriented_mesh : boundary.interface().oriented_meshes())
+                        if (oriented_mesh.mesh().current_barrier() && !oriented_mesh.mesh().isolated())
+                            oriented_mesh.mesh().outermost() = true;
 
         //  Do not invalidate vertices of isolated meshes if they are shared by non isolated meshes.
 
